@@ -870,6 +870,15 @@ func (g *Gen) prematerialise(st *State) {
 			visit(u.Key(), depth+1)
 			visit(u.Elem(), depth+1)
 		case *types.Struct:
+			// a struct held by value inside another object lives in heaps of its own type (interior object): they exist
+			// from the start, so that a callee's frame entry naming one of its fields (Dispenser.cursor of a Controller)
+			// denotes a heap also in a function that never touches the field itself
+			if depth > 0 && fieldMode && u.NumFields() > 0 {
+				registerStruct(t)
+				for i := 0; i < u.NumFields(); i++ {
+					g.w.heapArr(st, fldKey("obj:"+types.TypeString(t, nil), i), g.w.sortOf(u.Field(i).Type()))
+				}
+			}
 			for i := 0; i < u.NumFields(); i++ {
 				visit(u.Field(i).Type(), depth+1)
 			}
